@@ -184,7 +184,7 @@ def shuffle_rec(v, rng):
 class C06(Profile):
     pid = 'C06'
     owns_registries = True
-    tiers = {'quick': 1200, 'thorough': 120000}
+    tiers = {'quick': 4000, 'thorough': 200000}
     wall_cap = {'quick': 900, 'thorough': 5 * 3600}
     probes = ['no_contributing_property_v4', 'hash_preference_applied', 'non_preferred_single_hash', 'extension_with_float', 'custom_observable',
               'equal_contrib_different_noncontrib', 'near_miss_different_id', 'string_needing_escape', 'astral_or_bmp_boundary',
